@@ -253,16 +253,29 @@ def installed(ctl):
 
 
 def build_context(case, root):
+    """The step configuration.  `in` / `out` of the case are the names the files REALLY have,
+    relative to root.  `in_cfg` / `out_cfg` (optional) are how the pipeline spells them: strings
+    that still contain formatting ('{{x}}' for a literal brace, '{k}' for a context value) or
+    {'sic': path} for a !sic string - what one pass of formatting turns into `in` / `out`."""
     from pypyr.context import Context
+    from pypyr.dsl import SicString
     step = case['step']
     key = STEPS[step][1]
 
     def absp(x):
         return os.path.join(root, x)
-    vin = case['in']
-    cfg = {'in': [absp(x) for x in vin] if isinstance(vin, list) else absp(vin)}
-    if case.get('out') is not None:
-        cfg['out'] = absp(case['out'])
+
+    def cfgval(v):
+        if isinstance(v, list):
+            return [cfgval(x) for x in v]
+        if isinstance(v, dict) and 'sic' in v:
+            return SicString(absp(v['sic']))
+        return absp(v)
+    vin = case.get('in_cfg', case['in'])
+    cfg = {'in': cfgval(vin)}
+    vout = case.get('out_cfg', case.get('out'))
+    if vout is not None:
+        cfg['out'] = cfgval(vout)
     if step == 'filereplace':
         cfg['replacePairs'] = dict(case.get('pairs') or [])
     d = dict(case.get('ctx') or [])
@@ -347,11 +360,16 @@ def reference_plan(case, content):
         one = dict(case)
         one['in'] = 'f'
         one['out'] = None
+        one.pop('in_cfg', None)
+        one.pop('out_cfg', None)
         ctl, outcome = run_step(one, root, record_chunks=True)
         chunks = [c.decode('latin-1') for c in ctl.chunks]
         if outcome[0] == 'ok':
-            with open(os.path.join(root, 'f'), 'rb') as fh:
-                new = fh.read().decode('latin-1')
+            try:
+                with open(os.path.join(root, 'f'), 'rb') as fh:
+                    new = fh.read().decode('latin-1')
+            except OSError:       # the rewrite "succeeded" and the file is gone (a mutant)
+                return {'load_ok': True, 'items': chunks, 'new': None, 'weird': 'source vanished'}
             return {'load_ok': True, 'items': chunks, 'new': new}
         if outcome[1] == 'format':
             return {'load_ok': True, 'items': chunks + [None], 'new': None}
